@@ -106,6 +106,17 @@ func buildC01(tier string, seed int64) *Family {
 	for _, x := range []string{"//@a/..//b", "//@a/..//*", "//@*/../descendant::a", "descendant::a/@a/..//*", "//a/@a/../descendant::*"} {
 		add(x, cfg)
 	}
+	// elements with two attributes: an attribute context has attribute siblings, which no
+	// axis may reach except through the parent
+	cfgA2 := docCfg{N: 3, A: 2, Names: "a,b", Pool: ","}
+	for _, ax := range oracle.Axes {
+		add(ax+"::node()", cfgA2)
+		add(ax+"::a", cfgA2)
+		add("@*/"+ax+"::*", cfgA2)
+	}
+	for _, x := range []string{"@*", "@a", "//@*", "//@*/@*", "@*/..", "@*/../@*", "//@a/../@b", "@*/.", "../@*"} {
+		add(x, cfgA2)
+	}
 	fam := &Family{
 		Instances: withReuse(dedupInst(insts), 1),
 		Canaries: []*vm.Instance{
